@@ -385,13 +385,13 @@ def _desc_shards(tier):
 
 
 HARNESSES = [
-    H(child, shards=_len_shards("name", "n"), labels=("end", "refused"), timeout={"quick": 80, "thorough": 1500}),
-    H(preauth, shards=_len_shards("path", "n"), labels=("end", "refused"), timeout={"quick": 80, "thorough": 1500}),
+    H(child, shards=_len_shards("name", "n"), labels=("end", "refused"), timeout={"quick": 120, "thorough": 1500}),
+    H(preauth, shards=_len_shards("path", "n"), labels=("end", "refused"), timeout={"quick": 120, "thorough": 1500}),
     H(descendant, shards=_desc_shards, labels=("end", "refused"), timeout={"quick": 60, "thorough": 900}),
     H(request, shards=_url_shards, labels=("end", "served", "notfound"),
-      timeout={"quick": 80, "thorough": 1500}),
+      timeout={"quick": 120, "thorough": 1500}),
     H(request_menu, shards=_menu_shards, labels=("end", "served", "notfound"),
-      timeout={"quick": 80, "thorough": 1500}, note="solver-driven case split over a traversal token menu"),
+      timeout={"quick": 120, "thorough": 1500}, note="solver-driven case split over a traversal token menu"),
 ]
 
 VECTORS = {
